@@ -51,6 +51,19 @@ def build_and_run(files: dict, backend: str, yvals: list[list[float]], params: d
 static const double Y[{ng}][{neq}] = {{ {yrows} }};
 static const double PRM[{ng}][{max(1, len(fields))}] = {{ {prow} }};
 static void put(FILE *o, const double *p, size_t n) {{ fwrite(p, sizeof(double), n, o); }}
+#include "naunet_physics.h"
+/* extras per system: the cooling coefficients and the helper values the temperature equation is built from */
+static void put_extras(FILE *o, double *y, NaunetData *d) {{
+#if NCOOLPROCS
+    double *kc = (double *)malloc(sizeof(double) * NCOOLPROCS);
+    for (int i = 0; i < NCOOLPROCS; i++) kc[i] = 0.0;
+    EvalCoolingRates(kc, y, d);
+    put(o, kc, NCOOLPROCS);
+    free(kc);
+#endif
+    double h[3] = {{ GetNumDens(y), GetMu(y), GetGamma(y) }};
+    put(o, h, 3);
+}}
 """
         if backend in ("dense", "sparse"):
             mk = "SUNDenseMatrix(NEQUATIONS, NEQUATIONS, ctx)" if backend == "dense" else "SUNSparseMatrix(NEQUATIONS, NEQUATIONS, NNZ, CSR_MAT, ctx)"
@@ -80,6 +93,7 @@ int main() {{
         N_VConst(0.0, ud);
         Fex(0.0, u, ud, &d);
         put(o, N_VGetArrayPointer(ud), NEQUATIONS);
+        put_extras(o, y, &d);
         SUNMatrix J = {mk};
         Jac(0.0, u, ud, J, &d, NULL, NULL, NULL);
         {out_j}
@@ -133,6 +147,7 @@ int main() {{
         EvalRates(k, u->content->data + g * NEQUATIONS, &d[g]);
         put(o, k, NREACTIONS);
         put(o, ud->content->data + g * NEQUATIONS, NEQUATIONS);
+        put_extras(o, u->content->data + g * NEQUATIONS, &d[g]);
         for (int i = 0; i < NEQUATIONS + 1; i++) {{ double v = (double)J->indexptrs[i]; put(o, &v, 1); }}
         for (int i = 0; i < NNZ; i++) {{ double v = (double)J->indexvals[i]; put(o, &v, 1); }}
         put(o, J->data + (size_t)g * NNZ, NNZ);
@@ -160,6 +175,7 @@ int main() {{
         put(o, k, NREACTIONS);
         Fex f(&d); f(x, dx, 0.0);
         for (int i = 0; i < NEQUATIONS; i++) {{ double v = dx[i]; put(o, &v, 1); }}
+        put_extras(o, y, &d);
         matrix_type m(NEQUATIONS, NEQUATIONS);
         Jac j(&d); j(x, m, 0.0, dfdt);
         for (int r = 0; r < NEQUATIONS; r++) for (int c = 0; c < NEQUATIONS; c++) {{ double v = m(r, c); put(o, &v, 1); }}
@@ -188,7 +204,9 @@ int main() {{
             return {"error": "runtime", "detail": head[:400], "stderr": err[:1500]}
         raw = (d / "out.bin").read_bytes()
         vals = struct.unpack(f"<{len(raw)//8}d", raw)
-        per = nreac + neq + (neq * neq if backend not in ("sparse", "cusparse") else (neq + 1 + 2 * nnz))
+        ncool = macros.value("NCOOLPROCS") if "NCOOLPROCS" in macros.text else 0
+        nx = ncool + 3
+        per = nreac + neq + nx + (neq * neq if backend not in ("sparse", "cusparse") else (neq + 1 + 2 * nnz))
         if len(vals) != ng * per:
             raise HarnessError(f"oderun: {len(vals)} doubles, expected {ng*per}")
         out = []
@@ -196,7 +214,9 @@ int main() {{
             row = vals[g * per : (g + 1) * per]
             k = list(row[:nreac])
             yd = list(row[nreac : nreac + neq])
-            rest = row[nreac + neq :]
+            xs = list(row[nreac + neq : nreac + neq + nx])
+            extras = {"kc": xs[:ncool], "npar": xs[ncool], "mu": xs[ncool + 1], "gamma_helper": xs[ncool + 2]}
+            rest = row[nreac + neq + nx :]
             if backend in ("sparse", "cusparse"):
                 rp = [int(x) for x in rest[: neq + 1]]
                 cv = [int(x) for x in rest[neq + 1 : neq + 1 + nnz]]
@@ -205,10 +225,10 @@ int main() {{
                 for r in range(neq):
                     for n in range(rp[r], rp[r + 1]):
                         jac[(r, cv[n])] = dv[n]
-                out.append({"k": k, "ydot": yd, "jac": jac, "csr": (rp, cv, dv)})
+                out.append({"k": k, "ydot": yd, "jac": jac, "csr": (rp, cv, dv), **extras})
             else:
                 jac = {(r, c): rest[r * neq + c] for r in range(neq) for c in range(neq)}
-                out.append({"k": k, "ydot": yd, "jac": jac, "csr": None})
+                out.append({"k": k, "ydot": yd, "jac": jac, "csr": None, **extras})
         return {"runs": out, "neq": neq, "nreac": nreac, "nnz": nnz}
     finally:
         shutil.rmtree(d, ignore_errors=True)
